@@ -142,6 +142,9 @@ EXPLANATION += c18_args.explanation(["get_args", "cmd"], "select_next_plate.get_
     "cast_dict_to_type, str_to_bool and the introspection functions are linked in Props/C18.v (their primitives are listed in C18's evidence).  "
     "Runtime: get_args() is run on generated command lines (kind cli_args): policy_cls is the class named, policy_params are typed by its annotations.  ")
 
+THEOREMS.update(c18_args.parser_theorems('C06', {'calculate_scores': ['fields', 'dests_derived', 'dests_distinct', 'seed', 'coordinates', 'params'], 'select_next_plate': ['fields', 'dests_derived', 'dests_distinct', 'seed', 'params']}))
+EXPLANATION += c18_args.parser_explanation(['calculate_scores', 'select_next_plate'])
+
 THEOREMS.update({
     "C06_model_is_source_size_scorer_score": "the translation of the whole method SizeScorer.score ({k: plate.size for k, plate in plates.items()}; distance_matrix, samples, rng, progress_bar are not read) equals the model's size_scorer on every plates dict (distinct keys, as in any Python dict): the same plate ids in the same order, each with the number of rows of its plate",
     "C06_model_is_source_size_scorer_score_general": "without the distinct-keys side condition: the comprehension is the left fold of dict_set over the entries",
@@ -470,6 +473,7 @@ def gen(rng, tier):
         yield dict(kind="holder", holders=hs, post=[], eligible=[pid], what=2)
     import c18_args
     yield from c18_args.gen_get_args(rng, tier, only="select_next_plate")
+    yield from c18_args.gen_parser(rng, tier, commands=["calculate_scores"])      # the other parser this property states theorems about
 
 # --------------------------------------------------------------------------- running
 
